@@ -143,6 +143,17 @@ def check(run):
     for k in range(2 if run.tier == "quick" else 8):
         one_case(run, custom_order_family(rng, (2, 1, 3) if k % 2 else (1, 2)))
         run.count("declared (non-default) Cartesian component order")
+    from checks.common import DEGENERATE_DISPLACEMENTS, degenerate_pair
+    for k, d in enumerate(DEGENERATE_DISPLACEMENTS if run.tier != "quick" else DEGENERATE_DISPLACEMENTS[:: 2] + DEGENERATE_DISPLACEMENTS[1:2]):
+        for la, lb in ((1, 1), (2, 1)) if run.tier == "quick" else ((1, 1), (2, 1), (1, 2), (2, 2), (3, 1), (0, 2)):
+            s1, s2 = degenerate_pair(rng, la, lb, d)
+            one_case(run, [s1, s2])
+        run.count("displacement with special structure")
+    from checks.common import mutate_returned_spherical_objects
+    mutate_returned_spherical_objects(3)
+    cs = []
+    one_case(run, [rand_shell(rng, l, cs, nprim=2, nseg=1 + l % 2, sph=True, exp_hi=10.0) for l in (2, 1, 3)])
+    run.count("after the caller modified objects returned by gbasis.spherical")
     for l in range(6):
         hi = core.exp_cap(l)
         s1 = ShellSpec(l, [0.0, 0.0, 0.0], [hi, 0.02], [[1.0], [0.5]], sph=(l % 2 == 0))
